@@ -21,7 +21,7 @@ RULE = ("case = one value (string over the small alphabet, grammar value, digit 
         "numeric/non-numeric keys x @string; non-trivial = the trimmed value starts or ends with a delimiter, or is an integer value in a numeric field; "
         "distinct = distinct value")
 ASSUMPTIONS = ["numeric field keys are the lower-case names listed by the middleware (year, month, volume, number, pages, edition, chapter, issue)"]
-MIN = {"mixed_records": (1000, 20000), "remove_rule": (10000, 100000), "restore_law": (50000, 500000), "reparse": (5000, 50000), "integer_rule": (500, 2000), "no_raise": (50000, 500000)}
+MIN = {"second_removal_pass": (5000, 50000), "mixed_records": (1000, 20000), "remove_rule": (10000, 100000), "restore_law": (50000, 500000), "reparse": (5000, 50000), "integer_rule": (500, 2000), "no_raise": (50000, 500000)}
 
 ALPHA = ["{", "}", '"', "a", " ", "#", "\\"]
 OPTS = [(d, reuse, ei) for d in ("{", '"') for reuse in (False, True) for ei in (False, True)]
@@ -157,6 +157,27 @@ def check(case, ctx):
             md = e.parser_metadata.get("removed_enclosing")
             if md != {"title": want_kind, "year": want_kind} or s.parser_metadata.get("removed_enclosing") != want_kind:
                 out.append(Violation("remove-metadata", f"C10:remove-metadata:{cls}", dict(value=v, got=srepr(md), string=srepr(s.parser_metadata), want=want_kind)))
+                break
+            # a second removal pass over the same block: strips the next layer (if any) and records THAT
+            st, r1b = run(RemoveEnclosingMiddleware(allow_inplace_modification=inplace), r1)
+            ctx.ran()
+            ctx.mon("second_removal_pass")
+            if st == "raise":
+                out.append(Violation("raised", f"C10:remove-raised-second-pass:{cls}:{r1b.split(':')[0]}", dict(value=v, error=r1b)))
+                break
+            want2, kind2 = rule(want_val)
+            e2, s2 = r1b.entries[0], r1b.strings[0]
+            if any(f.value != want2 for f in e2.fields) or s2.value != want2:
+                out.append(Violation("remove-rule", f"C10:remove-rule:second-pass:{cls}", dict(value=v, got=[f.value for f in e2.fields], want=want2)))
+                break
+            if e2.parser_metadata.get("removed_enclosing") != {"title": kind2, "year": kind2} or s2.parser_metadata.get("removed_enclosing") != kind2:
+                out.append(Violation("remove-metadata", f"C10:remove-metadata:second-pass:{vclass(want_val)}",
+                                     dict(value=v, got=srepr(e2.parser_metadata.get("removed_enclosing")), string=srepr(s2.parser_metadata), want=kind2)))
+                break
+            st, back = run(AddEnclosingMiddleware(reuse_previous_enclosing=True, enclose_integers=True, default_enclosing="{", allow_inplace_modification=inplace), r1b)
+            ctx.ran()
+            if st == "raise" or any(f.value != want_val.strip() for f in back.entries[0].fields) or back.strings[0].value != want_val.strip():
+                out.append(Violation("restore-law", f"C10:restore-law:second-pass:{vclass(want_val)}", dict(value=v, got=srepr(back), want=want_val.strip())))
                 break
             # restore law under every option set with reuse=True
             for (d, reuse, ei) in OPTS:
